@@ -59,6 +59,9 @@ def build_test(crate, unique, cargo_args, timeout=1500):
     env['CARGO_NET_OFFLINE'] = 'true'
     env['CARGO_TARGET_DIR'] = target_dir()
     env['CARGO_INCREMENTAL'] = '0'
+    # opt-level 1 (debug assertions and overflow checks stay on): the grids run 4-5 times faster, regex compilation above all
+    env['CARGO_PROFILE_TEST_OPT_LEVEL'] = '1'
+    env['CARGO_PROFILE_DEV_OPT_LEVEL'] = '1'
     p = subprocess.run(['cargo', 'test', '--offline', '--no-run', '--message-format=json'] + cargo_args, cwd=crate, env=env,
                        stdout=subprocess.PIPE, stderr=subprocess.PIPE, text=True, timeout=timeout)
     files, exe, rendered = [], None, []
